@@ -16,6 +16,7 @@ import (
 	"go/printer"
 	"go/token"
 	"go/types"
+	"regexp"
 	"strings"
 )
 
@@ -586,4 +587,116 @@ func componentOf(name string) string {
 		return "float64"
 	}
 	return ""
+}
+
+// normalizeStorage abstracts the storage class of a slot in a canonical term so that a
+// kind that is never unboxed (string) can be compared with the unboxed kinds:
+//   INTS[T](E, i)                                  -> SLOT(E, i)
+//   E.Vals[i].⟪Acc⟫()                               -> SLOT(E, i)
+//   { $n := NewR(TypeOfX).Elem(); $n.Set⟪Acc⟫(v); E.Vals[i] = $n }  -> SLOT(E, i) = v
+// and renumbers the α-names afterwards. Used only for the lone-member comparison.
+func normalizeStorage(s string) string {
+	// boxed store
+	reBox := regexp.MustCompile(`\{ (\$\d+) := xreflect\.NewR\(base\.TypeOf\w+\)\.Elem\(\); (\$\d+)\.Set⟪\w+⟫\(`)
+	for {
+		loc := reBox.FindStringSubmatchIndex(s)
+		if loc == nil {
+			break
+		}
+		v := s[loc[2]:loc[3]]
+		if s[loc[4]:loc[5]] != v {
+			break
+		}
+		// value expression up to the matching ')'
+		i := loc[1]
+		depth := 1
+		j := i
+		for ; j < len(s) && depth > 0; j++ {
+			switch s[j] {
+			case '(':
+				depth++
+			case ')':
+				depth--
+			}
+		}
+		val := s[i : j-1]
+		rest := s[j:]
+		// "; E.Vals[idx] = $n }"
+		if !strings.HasPrefix(rest, "; ") {
+			break
+		}
+		rest = rest[2:]
+		k := strings.Index(rest, ".Vals[")
+		if k < 0 {
+			break
+		}
+		E := rest[:k]
+		idxStart := k + len(".Vals[")
+		d2 := 1
+		m := idxStart
+		for ; m < len(rest) && d2 > 0; m++ {
+			switch rest[m] {
+			case '[':
+				d2++
+			case ']':
+				d2--
+			}
+		}
+		idx := rest[idxStart : m-1]
+		tail := rest[m:]
+		suffix := " = " + v + " }"
+		if !strings.HasPrefix(tail, suffix) || strings.ContainsAny(E, ";{}") {
+			break
+		}
+		s = s[:loc[0]] + "SLOT(" + E + ", " + idx + ") = " + val + tail[len(suffix):]
+	}
+	// unboxed access
+	reInts := regexp.MustCompile(`P?INTS\[⟦\w+⟧\]\(`)
+	s = reInts.ReplaceAllString(s, "SLOT(")
+	// boxed read: E.Vals[idx].⟪Acc⟫()
+	for {
+		k := strings.Index(s, ".Vals[")
+		if k < 0 {
+			break
+		}
+		// E: identifier-ish chars backwards
+		b := k
+		for b > 0 && (isIdentByte(s[b-1]) || s[b-1] == '.' || s[b-1] == '$') {
+			b--
+		}
+		E := s[b:k]
+		idxStart := k + len(".Vals[")
+		d := 1
+		m := idxStart
+		for ; m < len(s) && d > 0; m++ {
+			switch s[m] {
+			case '[':
+				d++
+			case ']':
+				d--
+			}
+		}
+		idx := s[idxStart : m-1]
+		tail := s[m:]
+		reAcc := regexp.MustCompile(`^\.⟪\w+⟫\(\)`)
+		if loc := reAcc.FindStringIndex(tail); loc != nil {
+			s = s[:b] + "SLOT(" + E + ", " + idx + ")" + tail[loc[1]:]
+		} else {
+			// some other use of Vals: keep, but protect from rescanning
+			s = s[:k] + ".VALS[" + s[idxStart:]
+		}
+	}
+	s = strings.ReplaceAll(s, ".VALS[", ".Vals[")
+	// renumber α-names
+	reVar := regexp.MustCompile(`\$\d+`)
+	names := map[string]string{}
+	s = reVar.ReplaceAllStringFunc(s, func(v string) string {
+		if n, ok := names[v]; ok {
+			return n
+		}
+		n := fmt.Sprintf("$%d", len(names)+1)
+		names[v] = n
+		return n
+	})
+	return s
 }
